@@ -16,8 +16,9 @@
   Names are naturals; a state's global name is the path `List Nat` (the code joins with the
   separator; the harness splits it back).  Texts (triggers, labels) are token lists, `[]` = "".
 
-  Three switches select, for the places where the pinned code violates C16, the behaviour of the code
-  as it is (`false`) or of the proposed repair (`true`); the harness probes the live code to choose.
+  The model follows the repaired tree (fix: commits d4cb904 global `previous` names, 043c146 ROI
+  filter tolerates internal transitions, 84b14cc flat final marker, 47dcba3 root-scoped markup); the
+  witnesses of the former defects are regression cases in corpus/C16/.
   No imports outside Model.* (the driver links as a lean_exe).
 -/
 namespace TM
@@ -65,9 +66,6 @@ structure Opts where
   nested : Bool               -- NestedGraph (HierarchicalGraphMachine) or Graph
   showConds : Bool
   showAttrs : Bool
-  fixPrev : Bool := false     -- NestedGraph.set_previous_transition globalises scope-relative names
-  fixRoi : Bool := false      -- the ROI filter tolerates internal transitions (`t.get("dest")`)
-  fixFlatFinal : Bool := false -- flat Graph._add_nodes emits the final marker
   deriving DecidableEq, Repr, Inhabited
 
 /-! ### abstract diagram -/
@@ -136,13 +134,13 @@ def Styles.setNodes (s : Styles) (ps : List Path) (v : Nat) : Styles :=
   ps.foldl (fun s p => s.setNode p v) s
 
 /-- the name under which `set_previous_transition(src, dst)` records a transition listed in the scope
-`pre`: the raw (scope-relative) name in the Mermaid backend as it is; the global name when repaired
-(as `diagrams_graphviz.NestedGraph` does via `_get_global_name`). Flat machines: `pre = []`. -/
-def prevKey (o : Opts) (pre p : Path) : Path := if o.fixPrev then pre ++ p else p
+`pre`: `NestedGraph` globalises the stored (scope-relative) name with `_get_global_name`, i.e. enters
+the name's segments from the current scope. Flat machines: `pre = []`. -/
+def prevKey (pre p : Path) : Path := pre ++ p
 
 /-- `reset_styling(); set_previous_transition(src, dst)` -/
-def setPrevious (o : Opts) (pre src dst : Path) : Styles :=
-  ({ edge := [(prevKey o pre src, some (prevKey o pre dst))] } : Styles).setNode (prevKey o pre src) 2
+def setPrevious (pre src dst : Path) : Styles :=
+  ({ edge := [(prevKey pre src, some (prevKey pre dst))] } : Styles).setNode (prevKey pre src) 2
 
 /-- what happens to a model's graph -/
 inductive Step
@@ -153,13 +151,13 @@ inductive Step
   | regen (cur : List Path)
   deriving DecidableEq, Repr, Inhabited
 
-def applyStep (o : Opts) : Styles → Step → Styles
-  | _, .change pre src dst cur => (setPrevious o pre src dst).setNodes cur 1
+def applyStep : Styles → Step → Styles
+  | _, .change pre src dst cur => (setPrevious pre src dst).setNodes cur 1
   | _, .regen cur => ({} : Styles).setNodes cur 1
 
 /-- styles of a model's graph after its history (the graph is created with `regen init`) -/
-def stylesAfter (o : Opts) (init : List Path) (h : List Step) : Styles :=
-  h.foldl (applyStep o) (({} : Styles).setNodes init 1)
+def stylesAfter (init : List Path) (h : List Step) : Styles :=
+  h.foldl applyStep (({} : Styles).setNodes init 1)
 
 /-! ### `_get_elements` -/
 
@@ -247,7 +245,7 @@ end
 /-- flat `Graph._add_nodes` -/
 def renderFlat (o : Opts) (st : Styles) (s : MState) : DNode :=
   .mk [s.name] (match s with | .mk name label _ enter exit .. => slabel o name label enter exit)
-    (o.fixFlatFinal && s.final) (some (st.styleOf [s.name])) false none false []
+    s.final (some (st.styleOf [s.name])) false none false []
 
 def nodesOf (o : Opts) (st : Styles) (states : List MState) : List DNode :=
   if o.nested then renderList o st [] states else states.map (renderFlat o st)
@@ -281,35 +279,28 @@ end
 
 def Styles.edgeStyled (s : Styles) (src : Path) (dst : Option Path) : Bool := s.edge.contains (src, dst)
 
-/-- the list comprehension over the transitions; `none` = the KeyError of `t["dest"]` on an internal
-transition whose source is not active -/
-def roiTrans (o : Opts) (st : Styles) (act : List Path) : List MTrans → Option (List MTrans)
-  | [] => some []
-  | t :: r =>
-    if act.contains t.source then (roiTrans o st act r).map (t :: ·)
-    else match t.dest with
-      | none => if o.fixRoi then roiTrans o st act r else none
-      | some d => if st.edgeStyled t.source (some d) then (roiTrans o st act r).map (t :: ·) else roiTrans o st act r
+/-- the list comprehension over the transitions:
+`t["source"] in active_states or custom_styles["edge"][t["source"]][t.get("dest")]`
+(an internal transition has no "dest" key; `.get` yields None, which is never a styled key) -/
+def roiTrans (st : Styles) (act : List Path) (ts : List MTrans) : List MTrans :=
+  ts.filter (fun t => act.contains t.source || st.edgeStyled t.source t.dest)
 
 def roiStates (st : Styles) (act : List Path) (ts : List MTrans) : List Path :=
   act ++ ts.flatMap (fun t => [t.source, t.dest.getD t.source]) ++
     (st.node.filter (fun kv => kv.2 != 0)).map (·.1)
 
-/-- `Graph.get_graph(title, roi_state)`; `roi = some cur` for `show_roi=True`. `none` = exception. -/
-def diagram (o : Opts) (m : Mach) (st : Styles) (roi : Option (List Path)) : Option Diagram :=
+/-- `Graph.get_graph(title, roi_state)`; `roi = some cur` for `show_roi=True` -/
+def diagram (o : Opts) (m : Mach) (st : Styles) (roi : Option (List Path)) : Diagram :=
   let ts := elements m
   match roi with
-  | none =>
-    some { nodes := nodesOf o st m.states, edges := edgesOf o ts, rootInit := m.initial }
+  | none => { nodes := nodesOf o st m.states, edges := edgesOf o ts, rootInit := m.initial }
   | some cur =>
-    match roiTrans o st (roiActive o cur) ts with
-    | none => none
-    | some ts' =>
-      let keep := roiStates st (roiActive o cur) ts'
-      some { nodes := nodesOf o st (filterList keep [] m.states), edges := edgesOf o ts',
-             rootInit := match m.initial with
-               | some i => if cur == [i] then some i else none
-               | none => none }
+    let ts' := roiTrans st (roiActive o cur) ts
+    let keep := roiStates st (roiActive o cur) ts'
+    { nodes := nodesOf o st (filterList keep [] m.states), edges := edgesOf o ts',
+      rootInit := match m.initial with
+        | some i => if cur == [i] then some i else none
+        | none => none }
 
 /-! ### observations on diagrams (used by the property statements) -/
 
